@@ -280,6 +280,11 @@ func (p *c14Plugin) HookWrapper() server.HookWrapper {
 					switch string(req.Publish.TopicName) {
 					case "m/reject":
 						return errC14NotAuthorized
+					case "m/reject10":
+						// an error is a refusal whatever its reason code (0x10 is not a failure code in an ack)
+						return codes.NewError(codes.NotMatchingSubscribers)
+					case "m/rejectplain":
+						return errors.New("c14: refused with a plain error")
 					case "m/drop":
 						req.Drop()
 					case "m/rewrite":
@@ -578,7 +583,7 @@ func genC14(rng *rand.Rand, tier string) *sim.Plan {
 	for _, c := range []int{1, 3} {
 		for k := 0; k < 1+rng.IntN(4); k++ {
 			msg++
-			pp.Ops = append(pp.Ops, sim.Op{K: "publish", C: c, Topic: pick(rng, []string{"m/reject", "m/drop", "m/rewrite", "m/replace", "m/plain"}), QoS: byte(rng.IntN(3)), Retain: chance(rng, 0.5), Payload: fmt.Sprintf("h%d", msg)})
+			pp.Ops = append(pp.Ops, sim.Op{K: "publish", C: c, Topic: pick(rng, []string{"m/reject", "m/reject10", "m/rejectplain", "m/drop", "m/rewrite", "m/replace", "m/plain"}), QoS: byte(rng.IntN(3)), Retain: chance(rng, 0.5), Payload: fmt.Sprintf("h%d", msg)})
 		}
 	}
 	p.Phases = append(p.Phases, pp, sim.Phase{Ops: []sim.Op{dump}})
@@ -888,7 +893,7 @@ func oracleC14(p *sim.Plan, out *sim.Outcome) []sim.Violation {
 			}
 			pl := o.Op.Payload
 			switch o.Op.Topic {
-			case "m/reject", "m/drop":
+			case "m/reject", "m/reject10", "m/rejectplain", "m/drop":
 				if len(arr[pl]) > 0 {
 					vs = append(vs, viol("C14", "publish", "delivered-despite-"+o.Op.Topic[2:], "PUBLISH %q on %s was delivered although OnMsgArrived %sed it", pl, o.Op.Topic, o.Op.Topic[2:]))
 				}
